@@ -125,6 +125,7 @@ func loadProg(repo string, tags string, overlay map[string][]byte) (*Prog, error
 		P.AllFns = append(P.AllFns, f)
 	}
 	sort.Slice(P.AllFns, func(i, j int) bool { return FnName(P.AllFns[i]) < FnName(P.AllFns[j]) })
+	curFieldFacts = computeFieldFacts(prog, P.AllFns)
 	return P, nil
 }
 
@@ -189,6 +190,9 @@ func CalleeName(in ssa.Instruction) string {
 		return ""
 	}
 	cc := c.Common()
+	if g, _ := injectedCallee(cc); g != nil {
+		return FnName(g)
+	}
 	if cc.IsInvoke() {
 		if m, _ := devirtualise(cc); m != nil {
 			return FnName(m)
